@@ -9,7 +9,7 @@
     salsa.hash     <bytes>                                          -> Salsa20().hash
     salsa.qr|row|col|dbl  l<words>                                  -> component on a Poly of ring 2^32
     chacha.*       the same for class Chacha
-    rc4.seq <key> | e <piece> | d <piece> | k <n> …                 -> outputs ; final i,j,S
+    rc4.seq <key> | e <piece> | d <piece> | k <n> | s <text> …      -> outputs ; final i,j,S   (s: a str message, refused)
     idx.map <salsa|chacha> <rM|rMinv|cM|cMinv>                      -> the index map
     idx.inv <salsa|chacha> <r|c> <i>                                -> inv[map[i]],map[inv[i]]
     idx.gather <salsa|chacha> <r|c> l<words>                        -> y[map][inv]|y[inv][map]
@@ -207,6 +207,9 @@ def rc4Model (st : Rc4.State) : List (List String) → List String → Option (L
       | ["k", n] => do
           let n ← parseNat? n
           pure (do let (ks, st) ← Rc4.keystream st n; pure (fmtIntList ks.ival, st))
+      | ["s", m] => do          -- a text (str) message: outside the byte-string domain, refused; the stream does not move
+          let _ ← parseBytes? m
+          pure (.ok ("REFUSED", st))
       | _ => none
     match r with
     | none => none
@@ -225,6 +228,10 @@ def rc4Spec (st : Spec.Rc4.St) : List (List String) → List String → Option (
       match parseNat? n with
       | none => none
       | some n => let (ks, st) := Spec.Rc4.prga n st; rc4Spec st rest (fmtNatList (ofB ks) :: acc)
+    | ["s", m] =>
+      match parseBytes? m with
+      | none => none
+      | some _ => rc4Spec st rest ("REFUSED" :: acc)
     | _ => none
 
 def rc4Ops (op : String) (args : List String) : Option (String × String) :=
